@@ -1,2 +1,93 @@
+"""Further gate-interpreting modules checked under C01: bench conversion (shared with C14) and the pattern
+simulation of subcircuit minimisation."""
+import z3
+
+from ..pyvc.values import Sym, VList, Obj
+from ..pyvc.prove import Contract
+from ..pyvc import theory
+from ..spec import ops as S
+
+SUB = 'cirbo/minimization/subcircuit.py'
+PATTERN_TYPES = ('NOT', 'AND', 'NAND', 'OR', 'NOR', 'XOR', 'NXOR', 'GEQ', 'LT', 'LEQ', 'GT')
+
+
+class EvalPattern(Contract):
+    """_PatternOperations(3).eval_pattern: bit k of the result is OP(name) of bit k of ALL operands (8-bit patterns)"""
+    relpath, qualname = SUB, '_PatternOperations.eval_pattern'
+    W = 8
+
+    def __init__(self, t, arity):
+        self.t, self.arity = t, arity
+        self.name = f'_PatternOperations.eval_pattern/{t}/arity{arity}'
+
+    def setup(self, it, ctx):
+        it.bv_width = self.W
+        m = it.load_module('cirbo.minimization.subcircuit')
+        o = it.call(m.env['_PatternOperations'], [3], {})
+        ps = [z3.Int(f'p{i}') for i in range(self.arity)]
+        for p in ps:
+            ctx.assume(z3.And(p >= 0, p < 2 ** self.W))
+        return [o, VList([Sym(p) for p in ps]), self.t], {}, {'ps': ps, 'o': o}
+
+    def post(self, it, ctx, result, st):
+        it.bv_width = None
+        r = it.int_term(result)
+        yield ('max-pattern', z3.BoolVal(st['o'].fields['max_pattern'] == 2 ** self.W - 1))
+        yield ('result-in-range', z3.And(r >= 0, r < 2 ** self.W))
+        k = ctx.fresh(z3.IntSort(), 'k')
+        bit = lambda x: z3.Extract(0, 0, z3.LShR(z3.Int2BV(x, self.W), z3.Int2BV(k, self.W))) == 1
+        yield ('bitwise-OP-of-all-operands', z3.Implies(z3.And(k >= 0, k < self.W), bit(r) == theory.OPz(self.t, [bit(p) for p in st['ps']])),
+               {'witness': 'nary>2' if self.arity > 2 else 'pattern'})
+
+    def on_raise(self, it, ctx, exc, st):
+        it.bv_width = None
+        return Contract.on_raise(self, it, ctx, exc, st)
+
+    def inputs(self, st):
+        return {'patterns': st['ps']}
+
+    def replay(self, values):
+        import importlib
+        sub = importlib.import_module('cirbo.minimization.subcircuit')
+        po = sub._PatternOperations(3)
+        import itertools
+        for ps in itertools.product((0b10101010, 0b11001100, 0b11110000, 0b00110101), repeat=self.arity):
+            got = po.eval_pattern(list(ps), self.t)
+            for k in range(8):
+                want = S.OP(self.t, [bool((p >> k) & 1) for p in ps])
+                if bool((got >> k) & 1) != bool(want):
+                    return False, f'eval_pattern({list(ps)}, {self.t!r}) = {got}: bit {k} is not OP of the operand bits'
+        return True, 'eval_pattern agrees with OP on the sampled patterns'
+
+
+class EvalPatternUnsupported(Contract):
+    relpath, qualname, name = SUB, '_PatternOperations.eval_pattern', '_PatternOperations.eval_pattern/unsupported-name-raises'
+
+    def setup(self, it, ctx):
+        m = it.load_module('cirbo.minimization.subcircuit')
+        o = it.call(m.env['_PatternOperations'], [2], {})
+        return [o, VList([1, 2]), 'LNOT'], {}, {}
+
+    def post(self, it, ctx, result, st):
+        yield ('must-raise', z3.BoolVal(False))
+
+    def on_raise(self, it, ctx, exc, st):
+        n = exc.cls.name if isinstance(exc, Obj) else repr(exc)
+        yield ('raises-UnsupportedOperationError', z3.BoolVal(n == 'UnsupportedOperationError'))
+
+
 def add(rep, pv, it):
-    pass
+    from .C14 import ConvertGate
+    for t in S.GATE_TYPES:
+        if t == 'INPUT':
+            continue
+        c = ConvertGate(t)
+        c.name = 'bench-conversion/' + c.name
+        it.loop_specs.clear()
+        pv.run_contract(c)
+    it.loop_specs.clear()
+    for t in PATTERN_TYPES:
+        ars = [1] if t == 'NOT' else ([2, 3] if t in S.NARY else [2])
+        for a in ars:
+            pv.run_contract(EvalPattern(t, a))
+    pv.run_contract(EvalPatternUnsupported())
